@@ -599,7 +599,9 @@ func (c *cenv) call(x *CExpr, want string) (Term, error) {
 		case a.Sort == "Str":
 			return Term{fmt.Sprintf("(s.len %s)", a.S), "Int", nil}, nil
 		case strings.HasPrefix(a.Sort, "Sl."):
-			return Term{fmt.Sprintf("(%s.len %s)", a.Sort, a.S), "Int", nil}, nil
+			t := fmt.Sprintf("(%s.len %s)", a.Sort, a.S)
+			U.sideFact(fmt.Sprintf("(>= %s 0)", t)) // ground instance of len >= 0
+			return Term{t, "Int", nil}, nil
 		}
 		return Term{}, fmt.Errorf("len of sort %s", a.Sort)
 	case "snoc", "cat", "sub", "at":
@@ -742,6 +744,21 @@ func (U *Universe) sigOrSlice(name string) *Sig {
 func (U *Universe) heapByKey(key string) *heapInfo {
 	if h, ok := U.heaps[key]; ok {
 		return h
+	}
+	if strings.HasPrefix(key, "deref.") {
+		// cell heap of a non-struct pointee, named by its sort tag
+		es := strings.TrimPrefix(key, "deref.")
+		known := es == "Int" || es == "Str" || es == "Any" || es == "Fn" || es == "Bool" || es == "RV" || es == "Type"
+		if _, ok := U.slices[es]; ok {
+			known = true
+		}
+		if known {
+			h := &heapInfo{Key: key, Sym: "H." + key, Elem: es}
+			U.heaps[key] = h
+			U.heapO = append(U.heapO, key)
+			return h
+		}
+		return nil
 	}
 	parts := strings.Split(key, ".")
 	if len(parts) != 3 {
